@@ -133,6 +133,20 @@ func checkMapOrder(c *Ctx, rule string, fs []*ssa.Function) int {
 				accs = append(accs, ph)
 			}
 			for _, ph := range accs {
+				// the accumulator grows by plain append in the loop? If its loop-carried value is handed back by a
+				// helper (insertOrdered(keys, k)), the helper decides the order
+				viaHelper := ""
+				for k, e := range ph.Edges {
+					if k < len(hdr.Preds) && inBody(hdr.Preds[k]) {
+						if cl, isCall := e.(*ssa.Call); isCall && calleeName(cl) != "builtin:append" && inModule(cl.Call.StaticCallee()) {
+							viaHelper = calleeName(cl)
+						}
+					}
+				}
+				if viaHelper != "" {
+					unknowns = append(unknowns, fmt.Sprintf("slice %s is filled in the map loop through %s, which decides its order", ph.Comment, viaHelper))
+					continue
+				}
 				// uses of ph outside the body must be dominated by a sort call on ph
 				var sorts []ssa.Instruction
 				var uses []ssa.Instruction
@@ -170,7 +184,35 @@ func checkMapOrder(c *Ctx, rule string, fs []*ssa.Function) int {
 							continue
 						}
 					}
+					if rv, isVal := r.(ssa.Value); isVal {
+						if _, isConv := r.(*ssa.ChangeType); isConv {
+							if ci := sortReachedFrom(rv, 0); ci != nil {
+								sorts = append(sorts, ci) // sort.Sort(sort.Reverse(sort.StringSlice(keys)))
+								continue
+							}
+						}
+					}
 					uses = append(uses, r)
+				}
+				// kept in order while it is filled (binary search + insertion), not sorted afterwards: the loop
+				// body searches the accumulator or writes it by index
+				insertionOrdered := false
+				for _, b := range f.Blocks {
+					if !inBody(b) {
+						continue
+					}
+					for _, in := range b.Instrs {
+						switch x := in.(type) {
+						case *ssa.Call:
+							if n := calleeName(x); strings.HasPrefix(n, "sort.Search") || n == "builtin:copy" {
+								insertionOrdered = true
+							}
+						}
+					}
+				}
+				if insertionOrdered && len(sorts) == 0 {
+					unknowns = append(unknowns, fmt.Sprintf("slice %s is filled inside the map loop with a binary search / copy (kept in order by insertion?)", ph.Comment))
+					continue
 				}
 				for _, u := range uses {
 					okU := false
@@ -242,6 +284,33 @@ func checkMapOrder(c *Ctx, rule string, fs []*ssa.Function) int {
 // that key is not unique per element (lower-cased text, trimmed text, a length), elements with equal
 // keys keep the order they arrived in - which, for a slice filled from a map range, is random.
 // Returns a description when the comparator visibly uses such a key; "" otherwise.
+// sortReachedFrom: a sorting call that v flows into through conversions, interface boxing and the
+// adapters of package sort (sort.StringSlice(x), sort.Reverse(...)).
+func sortReachedFrom(v ssa.Value, depth int) ssa.CallInstruction {
+	if v == nil || v.Referrers() == nil || depth > 5 {
+		return nil
+	}
+	for _, r := range *v.Referrers() {
+		switch x := r.(type) {
+		case *ssa.ChangeType, *ssa.Convert, *ssa.MakeInterface, *ssa.ChangeInterface:
+			if ci := sortReachedFrom(x.(ssa.Value), depth+1); ci != nil {
+				return ci
+			}
+		case *ssa.Call:
+			n := calleeName(x)
+			if sortFuncs[n] {
+				return x
+			}
+			if n == "sort.Reverse" {
+				if ci := sortReachedFrom(x, depth+1); ci != nil {
+					return ci
+				}
+			}
+		}
+	}
+	return nil
+}
+
 func tieBreakingLost(ci ssa.CallInstruction) string {
 	args := ci.Common().Args
 	if len(args) < 2 {
